@@ -271,13 +271,21 @@ func (r *Remote) addReachableTags(localRefs []*plumbing.Reference, remoteRefs st
 			return fmt.Errorf("get annotated tag commit: %w", err)
 		}
 
+		// a tag that is pushed explicitly must not be queued a second time
+		queued := false
+		for _, cmd := range *cmds {
+			if tag.Name() == cmd.Name {
+				queued = true
+				break
+			}
+		}
+		if queued {
+			continue
+		}
+
 		// only include tags that are reachable from one of the refs
 		// already being pushed
 		for _, cmd := range *cmds {
-			if tag.Name() == cmd.Name {
-				continue
-			}
-
 			if strings.HasPrefix(cmd.Name.String(), "refs/tags") {
 				continue
 			}
@@ -289,6 +297,7 @@ func (r *Remote) addReachableTags(localRefs []*plumbing.Reference, remoteRefs st
 
 			if isAncestor, err := tagCommit.IsAncestor(c); err == nil && isAncestor {
 				*cmds = append(*cmds, &packp.Command{Name: tag.Name(), New: tag.Hash()})
+				break
 			}
 		}
 	}
